@@ -308,6 +308,8 @@ SYMBOLIC = {   # derived value -> expression candidates (must evaluate to the st
 
 def gen_params(rng):
     ckw = phys.gen_constants(rng, amplified=rng.random() < 0.5)
+    if rng.random() < 0.3:
+        ckw['rp'] = round(0.1 + 14.4 * rng.uniform(0.2, 0.8), 3)      # profile peak not at mid-radius
     P = rng.choice([1, 2, 3, 4])
     sched = simworld.random_sched(rng, 0)
     return dict(kind='params', P=P, ckw=ckw, perm_seed=rng.randrange(1 << 30),
@@ -397,8 +399,10 @@ def run_params(case, tape):
                                                                    order=keys if name == 'permuted' else None))
                 return True
             M.run(case['P'], case['sched'], reader)
-    return M.finish(extra=dict(nontrivial=True, probes={'kind_params': 1,
-                                                        'symbolic_keys': len(case['symbolic'])}))
+    probes = {'kind_params': 1, 'symbolic_keys': len(case['symbolic'])}
+    if 'rp' in ckw:
+        probes['explicit_rp'] = 1
+    return M.finish(extra=dict(nontrivial=True, probes=probes))
 
 
 # ---------------------------------------------------------------------------
